@@ -81,8 +81,8 @@ static Outcome run_history(const std::vector<int> & h, int fsz, bool controlled,
             switch (sym) {
             case O_MISSING: f->open((dir + "/nonexistent-dir/x.blf").c_str(), std::ios_base::in); break;
             case O_UNWRITABLE: f->open((dir + "/nonexistent-dir/y.blf").c_str(), std::ios_base::out); break;
-            case O_IN: f->open((dir + "/in_" + std::to_string(fsz) + ".blf").c_str(), std::ios_base::in); open = true; break;
-            case O_OUT: f->open(outpath.c_str(), std::ios_base::out); open = true; wrote_session = true; break;
+            case O_IN: if (k & 1) f->open(dir + "/in_" + std::to_string(fsz) + ".blf", std::ios_base::in); else f->open((dir + "/in_" + std::to_string(fsz) + ".blf").c_str(), std::ios_base::in); open = true; break;   // both public overloads
+            case O_OUT: if (k & 1) f->open(outpath, std::ios_base::out); else f->open(outpath.c_str(), std::ios_base::out); open = true; wrote_session = true; break;
             case O_AGAIN_OTHER: if (st == 2) f->open((dir + "/in_1.blf").c_str(), std::ios_base::in); else f->open((outpath + ".other").c_str(), std::ios_base::out); break;
             case O_AGAIN: if (st == 1) f->open((dir + "/in_1.blf").c_str(), std::ios_base::in); else f->open((outpath + ".other").c_str(), std::ios_base::out); break;
             case READ: {
